@@ -32,7 +32,7 @@ DESCR = {"B3": "Bundle<SE2,R2,SO3>", "B5": "Bundle<SO2,SO3,SE2,R2,SE3>", "BN": "
 PLAN = {
     # model: (depth, alphabet) checked exhaustively per model type; d1: replay every single step; sim: (traces, sample) at depth 3
     "quick": dict(types=["SO3d", "SE2d", "SE3d", "Gald", "SEK3_2d", "B3d", "SE3f", "C1f"],
-                  model=[(2, "core")], deep=[], d2cap=120, sim=(12, 120), asan=False, procs=8, chunk=700),
+                  model=[(2, "core")], deep=[], d2cap=120, sim=(12, 120), asan=False, procs=8, chunk=1200),
     "thorough": dict(types=["SO2d", "SO3d", "SE2d", "SE3d", "C1f", "Gald", "SEK3_2d", "SEK3_3d", "B3d", "B5d", "BNd", "SE3f", "Galf", "SE2f"],
                      model=[(2, "full")], deep=[("SO2", 3, "core"), ("C1", 3, "core"), ("SO3", 3, "core")],
                      d2cap=4000, sim=(60, 2000), asan=True, procs=12, chunk=2500),
